@@ -486,6 +486,7 @@ func FuzzC19(f *testing.F) {
 			return
 		}
 		p := &P{T: t, base: base{id: "C19", r: r}}
+		p.self = p
 		defer p.finish()
 		runC19(p, C19Case{Builtin: &x})
 	})
